@@ -1304,6 +1304,75 @@ impl Exec {
 
     // -------------------------------------------------------------------------------------
 
+    /// C08 on arenas whose root type needs no tracing. Independent of the modelled arenas.
+    pub fn plain_root_step(&mut self, root: u8, variant: u8) {
+        use gc_arena::{Arena, Gc, Rootable, Static};
+        #[derive(gc_arena::Collect)]
+        #[collect(no_drop)]
+        struct Plain {
+            counter: u32,
+            name: String,
+        }
+        fn walk<R>(ex: &mut Exec, what: &str, variant: u8, rooted: usize, mut arena: Arena<R>)
+        where
+            R: for<'a> Rootable<'a>,
+            for<'a> gc_arena::arena::Root<'a, R>: Sized + gc_arena::Collect<'a>,
+        {
+            let v = |ex: &mut Exec, tag: &'static str, msg: String| ex.violate("C08", tag, format!("arena with a root of type {what}: {msg}"));
+            arena.mutate(|mc, _| {
+                for i in 0..3u8 {
+                    let _ = Gc::new(mc, i);
+                }
+            });
+            if arena.collection_phase() != CollectionPhase::Sleeping {
+                v(ex, "plain-root-protocol", format!("fresh arena reports {:?}", arena.collection_phase()));
+            }
+            if variant % 3 == 1 {
+                // debt-driven marking: mark_debt with debt must stop at Marked and hand out the arena
+                arena.metrics().adjust_debt(1e9);
+                let some = arena.mark_debt().is_some();
+                if !some || arena.collection_phase() != CollectionPhase::Marked {
+                    v(ex, "plain-root-protocol", format!("mark_debt with positive debt from Sleeping returned is_some = {some}, phase {:?}", arena.collection_phase()));
+                }
+                arena.metrics().adjust_debt(-1e9);
+            }
+            let some = arena.finish_marking().is_some();
+            if !some {
+                v(ex, "finish-marking-return", format!("finish_marking returned None although the arena was not Sweeping (phase now {:?})", arena.collection_phase()));
+            }
+            if arena.collection_phase() != CollectionPhase::Marked {
+                v(ex, "plain-root-protocol", format!("after finish_marking the arena reports {:?}", arena.collection_phase()));
+            }
+            if variant % 3 == 2 {
+                // a root barrier while Marked: Marking until marking is finished again
+                arena.mutate_root(|_, _| {});
+                let some = arena.finish_marking().is_some();
+                if !some || arena.collection_phase() != CollectionPhase::Marked {
+                    v(ex, "plain-root-protocol", format!("finish_marking after mutate_root returned is_some = {some}, phase {:?}", arena.collection_phase()));
+                }
+            }
+            match arena.mark_debt() {
+                Some(m) => m.start_sweeping(),
+                None => v(ex, "mark-debt-return", "mark_debt returned None although the arena is Marked".into()),
+            }
+            if arena.collection_phase() != CollectionPhase::Sweeping && arena.metrics().total_gc_count() != 0 {
+                v(ex, "plain-root-protocol", format!("after start_sweeping the arena reports {:?}", arena.collection_phase()));
+            }
+            arena.finish_cycle();
+            if arena.collection_phase() != CollectionPhase::Sleeping || arena.metrics().total_gc_count() != rooted {
+                v(ex, "plain-root-protocol", format!("after finish_cycle: phase {:?}, {} allocations left ({rooted} rooted, 3 unreachable ones were made)", arena.collection_phase(), arena.metrics().total_gc_count()));
+            }
+        }
+        self.cov.plain_root_walks += 1;
+        obs::untracked(|| match root % 5 {
+            0 => walk(self, "()", variant, 0, Arena::<Rootable![()]>::new(|_| ())),
+            1 => walk(self, "u32", variant, 0, Arena::<Rootable![u32]>::new(|_| 7)),
+            2 => walk(self, "Static<Vec<u8>>", variant, 0, Arena::<Rootable![Static<Vec<u8>>]>::new(|_| Static(vec![1, 2]))),
+            3 => walk(self, "a derived struct without Gc fields", variant, 0, Arena::<Rootable![Plain]>::new(|_| Plain { counter: 1, name: "x".into() })),
+            _ => walk(self, "Gc<'_, u8> (control: a tracing root)", variant, 1, Arena::<Rootable![Gc<'_, u8>]>::new(|mc| Gc::new(mc, 1))),
+        });
+    }
+
     pub fn handle_clone_step(&mut self, h: u8) {
         if self.handles.is_empty() {
             return;
@@ -1377,7 +1446,19 @@ impl Exec {
         let ev0 = obs::events_len();
         let others = self.snapshot_others(usize::MAX);
         obs::set_quiet_panics(true);
-        let r = catch_unwind(AssertUnwindSafe(move || drop(hd)));
+        let unwinding = self.drop_unwinding;
+        let r = if unwinding {
+            // the handle is owned by a frame that unwinds from an unrelated panic
+            match catch_unwind(AssertUnwindSafe(move || {
+                let _owned = hd;
+                std::panic::panic_any(obs::CALLBACK_PANIC);
+            })) {
+                Err(p) if obs::panic_message(&*p) == obs::CALLBACK_PANIC => Ok(()),
+                other => other,
+            }
+        } else {
+            catch_unwind(AssertUnwindSafe(move || drop(hd)))
+        };
         obs::set_quiet_panics(false);
         if let Err(p) = r {
             self.violate("C14", "handle-drop-panicked", format!("drop of handle {hi}: {}", obs::panic_message(&*p)));
@@ -1458,6 +1539,11 @@ impl Exec {
             Step::CloneHandle { h } => self.handle_clone_step(*h),
             Step::CloneFromHandle { dst, src } => self.handle_clone_from_step(*dst, *src),
             Step::DropHandle { h } => self.handle_drop_step(*h),
+            Step::DropHandleUnwinding { h } => {
+                self.drop_unwinding = true;
+                self.handle_drop_step(*h);
+                self.drop_unwinding = false;
+            }
             Step::ArmTracePanic { k } => {
                 if !self.opts.c09 {
                     obs::arm_trace_fuse(*k as u32 % 24 + 1);
@@ -1491,6 +1577,7 @@ impl Exec {
                     self.settle_step(ai);
                 }
             }
+            Step::PlainRootProtocol { root, variant } => self.plain_root_step(*root, *variant),
         }
     }
 
